@@ -144,16 +144,78 @@ def one_case(run, seed, idx, mods):
         run.count("sparse_runs")
 
 
+def scan_case(run, seed, idx, sparseframe):
+    """SparseScan.cplabel over a multi-frame sparse file (with empty frames): per-frame components, labels unique over
+    the scan when countall=True"""
+    import os, tempfile, shutil
+    from ..common import WORK
+    r = rng(seed, "C11", "scan", idx)
+    shape = [(8, 9), (32, 20), (64, 64)][idx % 3]
+    nfr = int(r.integers(2, 9))
+    thr = float(r.choice([0.0, 10.0]))
+    frames = []
+    for k in range(nfr):
+        kind = "empty" if (k == 1 or r.random() < 0.15) else imgs.MASK_KINDS[int(r.integers(len(imgs.MASK_KINDS)))]
+        above = imgs.gen_mask(r, shape, kind)
+        img = imgs.image_from_mask(r, above, thr)
+        stored = above | (r.random(shape) < 0.1) if kind != "empty" else above   # stored pixels may be <= threshold
+        frames.append((stored, img, above))
+    desc = dict(index=idx, route="SparseScan.cplabel", shape=shape, nframes=nfr, threshold=thr)
+    run.case(("scan", shape, nfr, idx), nontrivial=True, sample=desc if idx < 2 else None)
+    os.makedirs(os.path.join(WORK, "tmp"), exist_ok=True)
+    d = tempfile.mkdtemp(prefix="c11s_", dir=os.path.join(WORK, "tmp"))
+    try:
+        fn = os.path.join(d, "scan.h5")
+        per = imgs.write_sparse_scan(fn, [(f[0], f[1]) for f in frames])
+        for countall in (True, False):
+            sc = sparseframe.SparseScan(fn, "1.1")
+            sc.cplabel(threshold=thr, countall=countall)
+            run.count("sparsescan_runs")
+            off = 0
+            tot = 0
+            for k, (stored, img, above) in enumerate(frames):
+                s0, e0 = sc.ipt[k], sc.ipt[k + 1]
+                lab = np.asarray(sc.labels[s0:e0])
+                rl, rn = imgs.ref_label(above, True)
+                dense = np.zeros(shape, np.int64)
+                dense[per[k][0], per[k][1]] = lab
+                ok = sc.nlabels[k] == rn and (dense[~above] == 0).all() and (dense[above] > 0).all() if above.any() else \
+                    (sc.nlabels[k] == 0 and (lab == 0).all())
+                if ok and rn:
+                    got = dense.copy()
+                    got[above] -= off
+                    ok = np.array_equal(imgs.canon(got), imgs.canon(rl)) and got[above].min() == 1 and got[above].max() == rn
+                if not ok:
+                    run.violation("SparseScan.cplabel:frame-labels",
+                                  "frame %d of %d (countall=%s): labels are not the connected components numbered %d.."
+                                  % (k, nfr, countall, off + 1), dict(desc, frame=k, countall=countall))
+                    return
+                tot += rn
+                if countall:
+                    off += rn
+            if sc.total_labels != tot:
+                run.violation("SparseScan.cplabel:total", "total_labels %d != sum of per-frame components %d"
+                              % (sc.total_labels, tot), dict(desc, countall=countall))
+    finally:
+        shutil.rmtree(d, ignore_errors=True)
+
+
 def check(run, replay=None):
     from ImageD11 import cImageD11, sparseframe
     mods = (cImageD11, sparseframe)
     if replay is not None:
-        one_case(run, replay["seed"], replay["case"]["index"], mods)
+        if replay["case"].get("route") == "SparseScan.cplabel":
+            scan_case(run, replay["seed"], replay["case"]["index"], sparseframe)
+        else:
+            one_case(run, replay["seed"], replay["case"]["index"], mods)
         run.nontrivial.update(["replay", "replay2"])
         return
     n = 400 if run.tier == "quick" else 8000
     for idx in range(n):
         one_case(run, run.seed, idx, mods)
+    for idx in range(12 if run.tier == "quick" else 300):
+        scan_case(run, run.seed, idx, sparseframe)
+    run.require_counter("sparsescan_runs", 10)
     run.extra["thread_counts"] = list(THREADS)
     import os
     if not os.environ.get("VERIF_ASAN_RERUN"):
